@@ -28,10 +28,12 @@ from vlib import Check, batch  # noqa: E402
 
 ck = Check('C22')
 
-THEOREMS = ['env_prefix', 'env_prefix_names', 'documented_tables',
-            'mode_last_wins', 'mode_default', 'cat_names', 'noop_insert',
-            'noop_insert_cluster', 'noop_insert_setup', 'cluster_eq_separate',
-            'c_t_conflict', 'c_t_conflict_tokens', 'discard_implies_decompress']
+THEOREMS = ['documented_tables', 'env_prefix', 'env_prefix_names', 'tokens_spec',
+            'mode_last_wins', 'mode_last_wins_list', 'mode_last_token', 'mode_default', 'cat_names',
+            'discard_implies_decompress', 'noop_insert', 'noop_insert_list',
+            'noop_insert_setup', 'noop_insert_cluster', 'cluster_eq_separate',
+            'c_t_conflict', 'c_t_conflict_events', 'c_t_conflict_tokens',
+            'cat_t_conflict']
 
 P = b'lbzip2 verification plaintext\n' * 3
 B = bz2.compress(P, 9)          # valid in every mode: compress it or expand it
@@ -197,6 +199,56 @@ def run_real(exe, bindir, idx, case):
         shutil.rmtree(d, ignore_errors=True)
 
 
+def run_tty(exe, idx, case):
+    """Like run_real, with a pseudo-terminal as stdin and/or stdout; returns
+    (status, files)."""
+    import pty
+    import tty
+    d = os.path.join(ck.tmp, 't%d' % idx)
+    os.mkdir(d)
+    fds = []
+    try:
+        for n, c in FILES0.items():
+            with open(os.path.join(d, n), 'wb') as f:
+                f.write(B if c == 'B' else JUNK)
+        env = {n: v for n, v in zip(ENVN, case['env']) if v is not None}
+        tin, tout = case['tty']
+        kw = {'stdin': subprocess.PIPE, 'stdout': subprocess.PIPE}
+        if tin:
+            m, sl = pty.openpty()
+            fds += [m, sl]
+            kw['stdin'] = sl
+        if tout:
+            m2, sl2 = pty.openpty()
+            tty.setraw(sl2)
+            fds += [m2, sl2]
+            kw['stdout'] = sl2
+        p = subprocess.Popen([case['argv0']] + case['argv'], executable=exe,
+                             cwd=d, env=env, stderr=subprocess.PIPE, **kw)
+        if not tin:
+            try:
+                p.stdin.write(B)
+                p.stdin.close()
+            except OSError:
+                pass
+        if not tout:
+            p.stdout.read()
+        p.stderr.read()
+        rc = p.wait(timeout=60)
+        files = {}
+        for n in os.listdir(d):
+            with open(os.path.join(d, n), 'rb') as f:
+                files[n] = classify(f.read())
+        return (rc, files)
+    finally:
+        for fd in fds:
+            try:
+                os.close(fd)
+            except OSError:
+                pass
+        shutil.rmtree(d, ignore_errors=True)
+
+
 # ------------------------------------------------- the documented rules (b)
 LONG2SHORT = {'--stdout': 'c', '--decompress': 'd', '--compress': 'z',
               '--fast': '1', '--best': '9', '--force': 'f', '--keep': 'k',
@@ -342,7 +394,7 @@ def gen_cases():
     for name in NAMES:
         for oi, o in enumerate(OPTSETS):
             for pi, ops in enumerate(OPERANDS):
-                if quick and rng.random() > (0.55 if pi < 3 else 0.15):
+                if quick and rng.random() > (0.4 if pi < 3 else 0.1):
                     continue
                 how = rng.choice(['symlink', 'execa'])
                 argv = o + ops if rng.random() < 0.7 else ops + o
@@ -411,7 +463,7 @@ def gen_cases():
     for name in NAMES:
         for o in cbase:
             for ops in ([], ['f', 'h']):
-                if quick and rng.random() > 0.12:
+                if rng.random() > (0.1 if quick else 0.5):
                     continue
                 base = mk(name, 'execa', [None] * 3, o + ops)
                 bi = len(cases)
@@ -428,9 +480,8 @@ def gen_cases():
                         for l in NOOP_LETTERS:
                             variants.append(argv[:ai] + [a[:pos] + l + a[pos:]]
                                             + argv[ai + 1:])
-                if quick:
-                    rng.shuffle(variants)
-                    variants = variants[:6]
+                rng.shuffle(variants)
+                variants = variants[:5 if quick else 10]
                 for v in variants:
                     c = mk(name, 'execa', [None] * 3, v)
                     # insertion point may also be an environment variable
@@ -458,7 +509,7 @@ def gen_cases():
            '--keep', '--small', '--sequential', '--verbose', '--quiet',
            '--repetitive-fast', '--repetitive-best', '--exponential', '-x',
            '--bogus', '-n0', '-kn', '-dm', 'nofile', '-k', '-k', '-d', '-z']
-    nd = 400 if quick else 6000
+    nd = 300 if quick else 6000
     for _ in range(nd):
         n = rng.randrange(0, 6)
         toks = [rng.choice(voc) for _ in range(n)]
@@ -491,16 +542,24 @@ def main():
     cases = gen_cases()
     ck.log('%d cases generated' % len(cases))
     rc, replies, err = batch([ck.driver()], [driver_line(c) for _, c, _ in cases])
-    if rc != 0 or len(replies) != len(cases):
+    if rc != 0 or len(replies) != len(cases) or 'bad-op' in replies \
+            or 'bad-arg' in replies:
         ck.broken.append('correspondence: driver failed (rc=%s, %d/%d replies) %s'
                          % (rc, len(replies), len(cases), err[-300:]))
         ck.finish({'evaluations': 0})
 
     t0 = time.time()
-    with ThreadPoolExecutor(max_workers=12) as ex:
+    with ThreadPoolExecutor(max_workers=10) as ex:
         obs = list(ex.map(lambda ic: run_real(exe, bindir, ic[0], ic[1][1]),
                           enumerate(cases)))
     ck.log('%d real runs in %.1fs' % (len(cases), time.time() - t0))
+
+    nviol = [0]
+
+    def violation(what, replay):
+        nviol[0] += 1
+        if nviol[0] <= 10:                 # ten concrete replays are enough
+            ck.violation(what, replay)
 
     seen = set()
     nontrivial = set()
@@ -531,9 +590,9 @@ def main():
             if dexp != o:
                 n_doc_bad += 1
                 replay['documented'] = repr(dexp)
-                ck.violation('real lbzip2 does not follow the documented '
-                             'name/option/environment rules on this invocation',
-                             replay)
+                violation('real lbzip2 does not follow the documented '
+                          'name/option/environment rules on this invocation',
+                          replay)
                 continue
         if base is not None:
             # no-op insertion: the real program must behave exactly as without it
@@ -542,8 +601,8 @@ def main():
                 n_noop_bad += 1
                 replay['without_noop'] = {'argv': cases[base][1]['argv'],
                                           'observed': repr(bo)}
-                ck.violation('inserting an ignored option changed what the '
-                             'real lbzip2 did', replay)
+                violation('inserting an ignored option changed what the '
+                          'real lbzip2 did', replay)
                 continue
         if exp != o:
             n_model_bad += 1
@@ -553,10 +612,46 @@ def main():
             if n_model_bad <= 8:
                 ck.broken.append('correspondence: Cli model vs real binary '
                                  'on %s' % driver_line(case))
+    # T. the two isatty() refusals (model: `clitty`)
+    tcases = []
+    for name in NAMES:
+        for o in [[], ['-d'], ['-z'], ['-c'], ['-dc'], ['-zc'], ['-t'], ['-k'],
+                  ['-h'], ['-V'], ['-x'], ['-ct']]:
+            for ops in ([], ['f']):
+                for tt in ((0, 1), (1, 0), (1, 1)):
+                    c = mk(name, 'execa', [None] * 3, o + ops)
+                    c['tty'] = tt
+                    tcases.append(c)
+    if ck.quick:
+        ck.rng.shuffle(tcases)
+        tcases = tcases[:160]
+    rc, treplies, err = batch([ck.driver()], [
+        'clitty %d %d %s' % (c['tty'][0], c['tty'][1], driver_line(c)[4:])
+        for c in tcases])
+    n_tty = n_tty_bad = 0
+    if rc != 0 or len(treplies) != len(tcases) or 'bad-op' in treplies \
+            or 'bad-arg' in treplies:
+        ck.broken.append('correspondence: driver failed on clitty')
+    else:
+        for ti, (c, r) in enumerate(zip(tcases, treplies)):
+            cfg = parse_reply(r)
+            if cfg['kind'] == 'config' and not cfg['ops'] and c['tty'][0]:
+                continue            # would read the terminal: not run
+            n_tty += 1
+            exp = simulate(cfg)
+            got = run_tty(exe, ti, c)
+            if got != (exp[0], exp[2]):
+                n_tty_bad += 1
+                if n_tty_bad <= 5:
+                    ck.log('tty disagreement %r: model %s -> %r, real %r'
+                           % (c, r, (exp[0], exp[2]), got))
+                    ck.broken.append('correspondence: isatty refusals, %s tty=%s'
+                                     % (driver_line(c), c['tty']))
+    groups['T'] = n_tty
     ck.log('groups %s; model outcomes %s; documented-rule cases %d'
            % (groups, kinds, n_doc))
     ck.finish({
-        'evaluations': len(cases),
+        'evaluations': len(cases) + n_tty,
         'distinct_nontrivial': len(nontrivial),
         'rule': 'distinct (argv0, exec style, environment, argv) with at '
                 'least one option/operand token',
@@ -564,7 +659,7 @@ def main():
         'groups': groups, 'model_outcomes': kinds,
         'documented_rule_cases': n_doc,
         'disagreements': {'model': n_model_bad, 'documented': n_doc_bad,
-                          'noop': n_noop_bad},
+                          'noop': n_noop_bad, 'violations_total': nviol[0]},
         'samples': samples, 'exhaustive': False,
     })
 
